@@ -114,6 +114,8 @@ def explore_cfg(args):
     t = explore.explore(ad, max_depth=depth, max_nodes=300000, audit_rng=random.Random(seed_))
     r, pf, dr = conform.walk_tree("Trace_Telomere", t, constants(c), "c09")
     fails = conform.fails_from(pf, t, sig, {"cfg": c})
+    if t["audit_fail"]:
+        fails += conform.audit_followup(ad, t, "Trace_Telomere", constants(c), sig, {"cfg": c})
     nontriv = sum(1 for e in t["edges"] if not e["leaf"] or e["obs"]["trans"])
     sample = next(({"cfg": c, "path": t["paths"][e["id"]], "obs": e["obs"], "post": e["post"]} for e in t["edges"]
                    if len(e["obs"]["trans"]) == 2), None)
@@ -153,8 +155,8 @@ def configs(tier):
     for m in mo:
         for et in ([1, 2, 3] if tier == "quick" else [1, 2, 3, 4]):
             for ren in (True, False):
-                for (lt, il) in ((NOLIMIT, NOLIMIT), (2, 2), (1, NOLIMIT), (NOLIMIT, 1)):
-                    if tier == "quick" and (m + et + (1 if ren else 0) + lt + il) % 6 != 0:
+                for (lt, il) in ((NOLIMIT, NOLIMIT), (2, 2), (1, NOLIMIT), (NOLIMIT, 1), (3, 1), (2, 1)):
+                    if tier == "quick" and (m + et + (1 if ren else 0) + lt + il) % 9 != 0:
                         continue
                     costs = sorted({0, 1, 2, m})
                     out.append({"maxops": m, "errthr": et, "renewal": ren, "lifetime": lt, "idle": il, "costs": costs,
@@ -166,7 +168,7 @@ def run(tier):
     R = base.Run("C09", tier)
     quick = tier == "quick"
     mcs = [{"maxops": 6, "errthr": 2, "renewal": True, "lifetime": 2, "idle": 2, "costs": [0, 1, 2, 6], "amounts": [1, 3]},
-           {"maxops": 10, "errthr": 3, "renewal": False, "lifetime": NOLIMIT, "idle": 1, "costs": [0, 1, 9], "amounts": [1]}]
+           {"maxops": 10, "errthr": 3, "renewal": False, "lifetime": 3, "idle": 1, "costs": [0, 1, 9], "amounts": [1]}]
     if not quick:
         mcs.append({"maxops": 12, "errthr": 4, "renewal": True, "lifetime": 1, "idle": 2, "costs": [0, 1, 2, 5, 12], "amounts": [1, 4, 12]})
     for c in mcs:
@@ -184,9 +186,8 @@ def run(tier):
         res = list(ex.map(explore_cfg, [(c, depth, base.seed()) for c in cs]))
         sres = list(ex.map(simulate_cfg, [(c, 100 if quick else 1000, 30, base.seed() + i) for i, c in enumerate(cs[:(6 if quick else 40)])]))
     closed = True
+    conform.settle_audit(res)
     for x in res:
-        if x["audit"]:
-            raise base.MachineryError("dedup audit failed: %s" % x["audit"])
         R.cov["traces_validated_against_impl"] += x["edges"]
         R.cov["evaluations"] += x["edges"]
         R.cov["distinct_nontrivial"] += x["nontrivial"]
